@@ -8,6 +8,7 @@
   `Spec.apply`, and so is any replayed sequence.
 -/
 import ChessVerif.Lemmas.Refine
+import ChessVerif.Lemmas.LegalShape
 namespace Chess.Props
 
 /-- C02 (one move): for every rules-level move `m` that has the shape of a legal move in a well-formed position
@@ -41,6 +42,38 @@ theorem C02_replay (T : ZTable) (ms : List Spec.SMove) : ∀ (p : Position), Ply
     show absPos (replayModel T (doMove T p (codeOf (absPos p) m)).1 ms) = ms.foldl Spec.apply (Spec.apply (absPos p) m)
     rw [← e]
     exact ih _ hp' (by rw [e]; exact h3)
+
+/-- C02 (FULL, one move): for every model position whose six FEN fields form a well-formed position (`Spec.wf`: the
+    quantifier of the property) and EVERY move that is legal under the rules there, do_move of the engine's code for that move
+    produces exactly the position the rules prescribe — placement, side, castling rights, en-passant square, half-move
+    clock, full-move number.  No shape hypothesis is left: `StepOK` is derived from `Spec.wf` and legality
+    (Lemmas/LegalShape.lean).  Standing assumptions: ply counter in step with the side (true after every FEN load with
+    full-move number ≥ 1, kept by every move) and clock < 65535 (uint16_t). -/
+theorem C02_full (T : ZTable) (p : Position) (m : Spec.SMove) (hwf : Spec.wf (absPos p) = true)
+    (hm : m ∈ Spec.legalMoves (absPos p)) (hp : PlyOK p) (hh : p.halfmove < 65535) :
+    absPos (doMove T p (codeOf (absPos p) m)).1 = Spec.apply (absPos p) m :=
+  C02_step T p m (stepOK_of_legal _ hwf m hm) hp hh
+
+/-- the hypotheses along a replay of legal moves, on the RULES side only: each position well-formed, each move legal -/
+def ReplayLegal : Spec.SPos → List Spec.SMove → Prop
+  | _, [] => True
+  | s, m :: ms => Spec.wf s = true ∧ m ∈ Spec.legalMoves s ∧ s.halfmove < 65535 ∧ ReplayLegal (Spec.apply s m) ms
+
+/-- C02 (FULL, sequences): replaying any sequence of legal moves from a well-formed position (what `position … moves …`
+    does) leaves the model in exactly the position the rules give after the same sequence -/
+theorem C02_replay_legal (T : ZTable) (ms : List Spec.SMove) : ∀ (p : Position), PlyOK p → ReplayLegal (absPos p) ms →
+    absPos (replayModel T p ms) = ms.foldl Spec.apply (absPos p) := by
+  intro p hp h
+  apply C02_replay T ms p hp
+  induction ms generalizing p with
+  | nil => trivial
+  | cons m ms ih =>
+    obtain ⟨h1, h2, h3, h4⟩ := h
+    have hs := stepOK_of_legal _ h1 m h2
+    obtain ⟨e, hp'⟩ := refine_step T p m hs hp h3
+    refine ⟨hs, h3, ?_⟩
+    rw [← e]
+    exact ih _ hp' (by rw [e]; exact h4)
 
 /-- the clauses the property names, read off the rules: castling does not reset the clock -/
 theorem C02_castling_clock (T : ZTable) (p : Position) (m : Spec.SMove) (ok : StepOK (absPos p) m) (hp : PlyOK p) (hh : p.halfmove < 65535)
